@@ -50,7 +50,7 @@ CHECKS = {
         text="Programs quantified over: a generated family (sync, sync_tag x 1..3 inputs x 1..3 outputs x plain/default+into) and "
              "every derive user in the crate; each generated new()/work()/eof() is checked on its MIR (wiring and return order, "
              "windows on all streams, waits name the empty stream, n = min over all inputs then all outputs, same n to every "
-             "consume/produce, eof = conjunction; no content- or tag-dependent panic site in generated code), plus compile witnesses for constructor output order.",
+             "consume/produce, eof = conjunction; no content- or tag-dependent panic site in generated code), plus compile witnesses for constructor / sync output order being declaration order (outputs declared in non-alphabetical name order with distinct types).",
         design="§4 C19", technique="structural rules on macro-generated MIR over a generated program family + compile_fail witnesses"),
     "C09": dict(
         text="Decides three of the four clauses statically: no stream window type occurs in any field, static, escaping "
@@ -60,7 +60,7 @@ CHECKS = {
         design="§4 C09", technique="type facts + effect-avoiding path search + guard/verdict agreement on MIR"),
     "C02": dict(
         text="Structural necessary conditions only: who-may-write on the stream's tag map (only commit adds, only consume "
-             "removes, the read window mutates nothing), commit stores a tag only behind tag.pos() < n and under a key reduced modulo the capacity, removal sits behind n != 0, the read window uses only stable sorts, read_buf takes the state lock exactly once (window bounds and tag list are one snapshot), the ring size is counted in samples (the mapping's byte length is used only where it is divided by the element size) no wrapping_* result is reduced modulo the capacity, and the non-wrapping tag scan of consume() is chosen under a strict comparison. The modular "
+             "removes, the read window mutates nothing), commit stores a tag only behind tag.pos() < n and under a key reduced modulo the capacity, and inside its tag loop no other branch sends a tag back unstored, removal sits behind n != 0, the read window uses only stable sorts, read_buf takes the state lock exactly once (window bounds and tag list are one snapshot), the ring size is counted in samples (the mapping's byte length is used only where it is divided by the element size) no wrapping_* result is reduced modulo the capacity, and the non-wrapping tag scan of consume() is chosen under a strict comparison. The modular "
              "range arithmetic of removal/re-basing (incl. consume(0)) is a value property and is not decided.",
         design="§4 C02", technique="who-may-call rule + guard dominance on MIR"),
     "C16": dict(
@@ -105,7 +105,7 @@ CHECKS = {
     "C07": dict(
         text="Static error-discipline and cancellation analysis of both runners: no block error is unwrapped, Err of "
              "work()/joined threads flows to run()'s return value, every work() cycle polls the cancel token with an "
-             "exiting true edge, all threads joined on all paths; a recorded failure survives the join loop and nothing that can panic runs before it is returned; a failing block thread cancels the token itself; no division in runner code by a count that can be zero.",
+             "exiting true edge, all threads joined on all paths; a recorded failure survives the join loop and nothing that can panic runs before it is returned; a failing block thread cancels the token itself; no division in runner code by a count that can be zero; the duration of a runner sleep is not a variable that grows without a clamp (how long a cancellation can go unseen).",
         design="§4 C07", technique="type-driven call-site rule + taint-to-return + cycle/poll analysis on MIR"),
 }
 
